@@ -36,7 +36,7 @@ RULE = ("Twin runs. Stream S and S' = S with the VALUES (prices, payloads, table
         "event before the end of the episode.")
 ASSUMPTIONS = ["value perturbations only: adding/removing future timestamps legitimately changes `done`"]
 REQUIRED = ["C02:no-lookahead", "C02:next-trades-independent-of-future", "C02:xy-no-lookahead"]
-REQUIRED_CATS = ["decision-refused-then-resubmitted", "earlier-episode-on-a-later-window", "xy-features-stamped-intraday", "xy-twin-in-fresh-interpreter", "xy-rate-off-price-dates", "transmitter-used-before-with-larger-latency", "xy-prefitted-transformer", "custom-events-from-table", "xy-sparse-features", "generic", "xy", "xy-nan-straddles-cut", "xy-row-missing-at-cut", "cut:first", "cut:last", "latency>0", "late-fold", "markov", "warmup"]
+REQUIRED_CATS = ["process-in-a-dst-time-zone", "decision-refused-then-resubmitted", "earlier-episode-on-a-later-window", "xy-features-stamped-intraday", "xy-twin-in-fresh-interpreter", "xy-rate-off-price-dates", "transmitter-used-before-with-larger-latency", "xy-prefitted-transformer", "custom-events-from-table", "xy-sparse-features", "generic", "xy", "xy-nan-straddles-cut", "xy-row-missing-at-cut", "cut:first", "cut:last", "latency>0", "late-fold", "markov", "warmup"]
 TECHNIQUE = "runtime monitoring: twin executions on streams that agree up to the cut, compared call by call on canonical digests (tabular twins partly run in a fresh interpreter)"
 LEVEL_TEXT = ("Exploration by twin runs: the same real environment is executed on two inputs that agree on everything stamped <= t; any "
               "difference in an output landing at or before t is a witness of look-ahead. Fixed actions prevent a leak from hiding "
@@ -152,7 +152,7 @@ def run_generic(spec, pert_after=None, prng=None):
     return out, npert
 
 
-def generic(ctx):
+def generic(ctx, dst=None):
     rng = ctx.rng
     cs = [ETF("A"), ETF("B"), ES(2021, 3)]
     rng.shuffle(cs)
@@ -160,6 +160,11 @@ def generic(ctx):
     n = rng.randint(3, 10)
     gaps = [rng.choice([60, 3600, 86400, 7 * 86400]) for _ in range(n - 1)]
     t0 = datetime(2020, 1, 1)
+    if dst:
+        # an intraday grid of plain (naive) datetimes over the night on which the local zone of the process skips an
+        # hour: stamps are compared as they are, whatever the zone says about them
+        gaps = [rng.choice([1800, 3600]) for _ in range(n - 1)]
+        t0 = datetime(2019, 3, 9, 22) if "EST" in dst else datetime(2019, 3, 30, 23)
     grid = [t0]
     for g in gaps:
         grid.append(grid[-1] + timedelta(seconds=g))
@@ -364,5 +369,11 @@ def xy(ctx):
 def case(ctx, i, tier):
     if i % 10 == 9:
         xy(ctx)
+    elif i % 10 == 4:
+        from vf import core
+        rule = ctx.rng.choice(["EST5EDT,M3.2.0,M11.1.0", "CET-1CEST,M3.5.0,M10.5.0/3"])
+        with core.local_timezone(rule):
+            ctx.cat("process-in-a-dst-time-zone")
+            generic(ctx, dst=rule)
     else:
         generic(ctx)
